@@ -5,7 +5,7 @@
    recursion limit (known finding D12), regex cost, time — is explored on the real CLI by tools/harness/c01.py. *)
 From Coq Require Import ZArith NArith List.
 From I18n Require Import Lib.Outcome Model.IntExpr Model.PluralForms Generated.PyConsts
-  Proofs.Codomain Proofs.IntExprParse.
+  Proofs.Codomain Proofs.IntExprParse Proofs.IntExprComplete Proofs.IntExprLex Proofs.PluralFormsNoCrash.
 From I18n Require Model.MoParser Model.FmtC Model.Header Model.Messages Model.Dates Model.Ling Model.LingData Model.Encodings
   Proofs.EncodingsTable.
 From I18n Require Props.C09 Props.C11 Props.C15 Props.C16 Props.C18 Props.C19 Props.C20.
@@ -24,6 +24,16 @@ Print Assumptions C01_range_analysis_total.
 Theorem C01_plural_parser_no_value_error : forall s, parse_string int_max_str_digits s <> Crash CValueError.
 Proof. exact (parse_string_no_value_error int_max_str_digits eq_refl). Qed.
 Print Assumptions C01_plural_parser_no_value_error.
+
+(* ... in fact no foreign exception at all: the parser model's fuel is sufficient for every token sequence
+   (C04_parse_fuel_sufficient), so its only failure is the syntax error; and nothing in check_plurals can crash *)
+Theorem C01_plural_parser_total : forall s c, parse_string int_max_str_digits s <> Crash c.
+Proof. exact (fun s c => parse_string_no_crash int_max_str_digits s c (digits_ok_unlimited (lex None s))). Qed.
+Print Assumptions C01_plural_parser_total.
+
+Theorem C01_check_plurals_total : forall inp c, check_plurals_core int_max_str_digits inp <> Crash c.
+Proof. exact check_plurals_core_no_crash. Qed.
+Print Assumptions C01_check_plurals_total.
 
 (* MO loader, through the except structure of Checker.check (C09) *)
 Theorem C01_mo_loader_total : forall asc dec f c, MoParser.checker_load asc dec f <> Crash c.
